@@ -355,7 +355,8 @@ class Machine(RuleBasedStateMachine):
 
     def teardown(self):
         if not self.dead and self.sim.dec is not None:
-            Machine.COLLECT.append((hash(repr(self.steps)), dict(self.sim.stats), len(self.sim.acs)))
+            keep = [list(x) for x in self.steps[:40]] if sum(1 for c in Machine.COLLECT if c[3] is not None) < 2 and self.sim.stats.get("ref") else None
+            Machine.COLLECT.append((hash(repr(self.steps)), dict(self.sim.stats), len(self.sim.acs), keep))
 
     @initialize(lat=RXLAT, lon=RXLON, first=st.lists(st.tuples(st.integers(0, 5), st.booleans(), cg.latitudes(), cg.longitudes(), gen.ufloat(0, 28), gen.ufloat(0, 360),
                                                                gen.ufloat(0, 360), st.one_of(gen.ufloat(0, 600), st.just(600.0)), st.sampled_from(["air", "air", "sfc"])),
